@@ -81,6 +81,22 @@ theorem untouched_task_same (b : RawProj) (ovs : List Override) (i : Nat) (h : â
     (projection b ovs).tasks[i]? = b.tasks[i]? :=
   foldl_applyOne_other ovs b.tasks i h
 
+/-- an override gives the task it names exactly the values it carries, for that scenario: attributes the override does not
+    mention keep the base value -/
+theorem override_sets_named_task (b : RawProj) (o : Override) (t : RawTask) (h : b.tasks[o.task]? = some t) :
+    (projection b [o]).tasks[o.task]? = some { t with
+      effort := (o.effort <|> t.effort), start := (o.start <|> t.start), stop := (o.stop <|> t.stop) } :=
+  applyOne_same b.tasks o t h
+
+/-- â€¦ and, applied after any other overrides that do not name that task, still does so -/
+theorem later_override_sets_named_task (b : RawProj) (ovs : List Override) (o : Override) (t : RawTask)
+    (h : b.tasks[o.task]? = some t) (hn : âˆ€ o' âˆˆ ovs, o'.task â‰  o.task) :
+    (projection b (ovs ++ [o])).tasks[o.task]? = some { t with
+      effort := (o.effort <|> t.effort), start := (o.start <|> t.start), stop := (o.stop <|> t.stop) } := by
+  unfold projection
+  simp only [List.foldl_append, List.foldl_cons, List.foldl_nil]
+  exact applyOne_same _ o t (by rw [foldl_applyOne_other ovs b.tasks o.task hn]; exact h)
+
 /-- everything of the project that is not a task (resolution, window, resources, calendars, limits) is shared unchanged -/
 theorem projection_shares_rest (b : RawProj) (ovs : List Override) :
     { projection b ovs with tasks := b.tasks } = b := rfl
